@@ -686,3 +686,40 @@ Proof.
     injection Hn as <-. rewrite held_app in ND. destruct (NoDup_app_parts _ _ ND) as [_ [_ Hd]].
     intros Hin. apply (Hd t Ht). unfold held. simpl. rewrite app_nil_r. exact Hin.
 Qed.
+
+(* ---------------------------------------------------------------- signed indices *)
+Lemma srun_is_run ss : exists ops, srun ss = run ops /\ length ops = length ss.
+Proof.
+  induction ss as [|s ss IH] using rev_ind.
+  - exists []. split; reflexivity.
+  - destruct IH as [ops [E L]]. exists (ops ++ [resolve (run ops) s]). split.
+    + unfold srun, run in *. rewrite !fold_left_app. cbn [fold_left]. rewrite E. reflexivity.
+    + rewrite !app_length, L. reflexivity.
+Qed.
+
+Lemma srun_transfer (P : world -> Prop) : (forall ops, P (run ops)) -> forall ss, P (srun ss).
+Proof. intros H ss. destruct (srun_is_run ss) as [ops [-> _]]. apply H. Qed.
+
+(* the normalisation is the C one: inside the accepted range it is n + i, and a refused index stays refused *)
+Lemma norm_index_neg n i : (i < 0)%Z -> (0 <= Z.of_nat n + i)%Z -> Z.of_nat (norm_index n i) = (Z.of_nat n + i)%Z.
+Proof.
+  intros Hi Hn. unfold norm_index.
+  destruct (Z.ltb_spec i 0); [|lia]. destruct (Z.ltb_spec (Z.of_nat n + i) 0); [lia|].
+  rewrite Z2Nat.id; lia.
+Qed.
+Lemma norm_index_refused n i : (Z.of_nat n + i < 0)%Z -> (i < 0)%Z -> norm_index n i = S n.
+Proof.
+  intros Hn Hi. unfold norm_index.
+  destruct (Z.ltb_spec i 0); [|lia]. destruct (Z.ltb_spec (Z.of_nat n + i) 0); [reflexivity|lia].
+Qed.
+Lemma norm_index_pos n i : (0 <= i <= Z.of_nat (S n))%Z -> Z.of_nat (norm_index n i) = i.
+Proof.
+  intros Hi. unfold norm_index. destruct (Z.ltb_spec i 0); [lia|].
+  destruct (Z.ltb_spec (Z.of_nat (S n)) i); [lia|]. rewrite Z2Nat.id; lia.
+Qed.
+Lemma norm_index_far n i : (Z.of_nat (S n) < i)%Z -> norm_index n i = S n.
+Proof.
+  intros Hi. unfold norm_index. destruct (Z.ltb_spec i 0); [lia|].
+  destruct (Z.ltb_spec (Z.of_nat (S n)) i); [reflexivity|lia].
+Qed.
+
